@@ -1,5 +1,7 @@
 """C07 — the store can always reopen what it wrote (E2 reopen profiles + E4 crash images)."""
 from . import crashwl as W
+
+PARAM_SECTIONS = ["wal"]
 from . import e2gen as G
 
 MODEL_TARGETS = ["theories/Spec/Machine.vo"]
